@@ -360,6 +360,18 @@ Definition is_c0_or_space (c : N) : bool := c <=? 32.
 Definition is_unsafe (c : N) : bool := (c =? 9) || (c =? 10) || (c =? 13).
 Definition is_netloc_end (c : N) : bool := (c =? ch_slash) || (c =? ch_q) || (c =? ch_hash).
 
+(* (py) the bracket checks of urlsplit: "Invalid IPv6 URL" and _check_bracketed_host *)
+Definition netloc_brackets_ok (netloc : str) : bool :=
+  let lb := contains ch_lbr netloc in
+  let rb := contains ch_rbr netloc in
+  if (lb && negb rb) || (rb && negb lb) then false
+  else if lb && rb then
+    bracketed_host_ok (match partition_on ch_lbr netloc with
+                       | (_, Some a) => fst (partition_on ch_rbr a)
+                       | (_, None) => []
+                       end)
+  else true.
+
 (* [nfkc_bad netloc]: urllib.parse._checknetloc raises for this (non-ASCII) netloc — unicodedata is an
    external component; the harness supplies CPython's own answer *)
 Definition urlsplit (nfkc_bad : str -> bool) (u0 : str) : res url :=
@@ -374,16 +386,7 @@ Definition urlsplit (nfkc_bad : str -> bool) (u0 : str) : res url :=
            | 47 :: 47 :: r =>
                let (netloc, tail) := break_on is_netloc_end r in
                let rest := match tail with Some (c, t) => c :: t | None => [] end in
-               let lb := contains ch_lbr netloc in
-               let rb := contains ch_rbr netloc in
-               if (lb && negb rb) || (rb && negb lb) then Err EValue
-               else if lb && rb then
-                 let inner := match partition_on ch_lbr netloc with
-                              | (_, Some a) => fst (partition_on ch_rbr a)
-                              | (_, None) => []
-                              end in
-                 if bracketed_host_ok inner then Ok (netloc, rest) else Err EValue
-               else Ok (netloc, rest)
+               if netloc_brackets_ok netloc then Ok (netloc, rest) else Err EValue
            | _ => Ok ([], u2)
            end ;;
   let (netloc, u3) := nr in
